@@ -30,6 +30,7 @@ type Obligation struct {
 	Seconds float64
 	Model   string
 	File    string
+	Digest  string // sha256 of the query text that was decided
 }
 
 // VC accumulates declarations, assumptions and obligations for one function under contract.
